@@ -103,7 +103,11 @@ PROPS["C11"] = dict(
                "sub-range of the curve. Cubic: the reported local extrema are exactly the roots of the derivative in (0,1) "
                "(given a correct square root of the discriminant), the exact range contains the curve, the fast range "
                "(convex hull) contains the curve. Model compared with lyon_geom (f64) exactly on curves constructed with "
-               "dyadic extremum parameters; boxes of general f64 curves and arcs/paths are validated by dense sampling.",
+               "dyadic extremum parameters; boxes of general f64 curves, of f32 cubics whose derivative has a tiny leading "
+               "coefficient (degree-elevated quadratics and linear-derivative cubics moved by an affine map), of arcs and of "
+               "whole paths (lyon_algorithms::aabb), the x-only / y-only / both-axes monotone splits with their pieces and "
+               "is_*_monotonic predicates, and lyon_algorithms::fit (fit_box per style, fit_path) are validated by dense "
+               "sampling.",
     level_note="Trusted: Coq kernel; cubic theorems assume the sqrt oracle returns a rational root of the discriminant "
                "(perfect-square discriminants; irrational roots are outside the rational model); arc extrema, path-level "
                "aabb and fit are validated numerically, not proved; rounding on general inputs not covered.",
@@ -119,7 +123,8 @@ PROPS["C11"] = dict(
          "and line segments checked by dense sampling (exact box contains the arc and is touched on four sides, fast box "
          "contains it, extremum parameters in [0,1] and stationary); non-trivial = control points not all equal",
     trusted_base=["Model/Bezier.v extremum/bounding-range functions follow quadratic_bezier.rs / cubic_bezier.rs"],
-    assumptions=["sqrt oracle correct at the discriminant (cubic theorems)", "rational arithmetic"],
+    assumptions=["sqrt oracle correct and non-negative at the discriminant (cubic theorems; a negative 'root' breaks the "
+                 "numerically stable root formula - Proofs/C11_Cubic.v: cubic_extrema_needs_nonneg_sqrt)", "rational arithmetic"],
 )
 
 PROPS["C18"] = dict(
@@ -155,12 +160,19 @@ PROPS["C02"] = dict(
                "a chain of len events emits len-2 triangles with in-range pairwise distinct indices and never exhausts its "
                "loop. The Gallina port (incl. the f32-rounded `dy * 0.1` test) is compared triangle-by-triangle (ids and "
                "order) with the real code through the lyon_verif hook on every y-monotone lattice polygon up to the stated "
-               "size. Interior-disjointness / area tiling of the stage is validated per run (exact integer area sums). "
+               "size. AREAS (also for ALL sequences, no monotonicity assumed): every triangle the basic tessellator emits has "
+               "the same orientation (no flipped triangle); before the fan triangles are re-oriented the triangles add up to "
+               "the polygon's shoelace area EXACTLY (conservation), the emitted ones are those up to the order of two "
+               "vertices, hence their total unsigned area is at least the polygon's and equals it when no fan triangle had to "
+               "be flipped; flush_side's triangles add up exactly to the area of the pending chain, for every chain. "
+               "Interior-disjointness of the stage is validated per run (exact integer area sums). "
                "System level: the output of whole fills (C01's generators) is checked for points covered by more than one "
                "triangle on every scan line with the Coq-evaluated cover count, and on sample points directly; together "
                "with C01's exact coverage this gives 'covered exactly once'.",
-    level_note="Trusted: Coq kernel; Base/F32.v rounding (validated against Rust each run); geometric tiling (triangles inside "
-               "the piece, no overlap) is checked by exact integer area sums on every enumerated polygon, not by a theorem.",
+    level_note="Trusted: Coq kernel; Base/F32.v rounding (validated against Rust each run); area conservation / orientation are "
+               "theorems for the basic tessellator and for flush_side; that the triangles of a y-monotone piece are pairwise "
+               "disjoint (and the composition advanced = flush + basic) is checked by exact integer area sums on every "
+               "enumerated polygon, not by a theorem.",
     technique="Coq proof (invariants over the tessellator state machines) + exhaustive enumeration correspondence via hook",
     coq_targets=["theories/Props/C02.vo", "theories/Run/C02.vo", "theories/Run/C01.vo"],
     props_file="theories/Props/C02.v",
@@ -380,10 +392,16 @@ PROPS["C17"] = dict(
                "anything is built, the result does not depend on the parser object's previous use, and the (line, column) "
                "carried by the source is the position of its current character. The model is a statement-by-statement port of "
                "parser.rs, bit-exact for f32, compared on every string of up to 3 (quick) / 4 (thorough) tokens over a "
-               "23-token alphabet plus grammar-generated and mutated data. The print->parse round trip is validated per run "
-               "on random stored paths (incl. extreme floats), not proved.",
+               "23-token alphabet plus grammar-generated and mutated data. ROUND TRIP (C17_print_parse_roundtrip): for EVERY "
+               "well-nested call sequence with the parser's attribute count, every number printer and every text->number "
+               "conversion, parsing the printed text (Model/Printer.v: the Debug printer of PathSlice) yields exactly those "
+               "calls and no error, provided each number's own text has the shape the number lexer consumes and converts "
+               "back to it; both hypotheses are validated for Rust's {:?} of f32 on 20000 random bit patterns per run, the "
+               "printer model is compared with the real printer on random stored paths, and printed texts go through the "
+               "parser model like any other string.",
     level_note="Trusted: Coq kernel; Base/F32.v; Rust's f32 text conversion (assumed: empty text is an error; correct rounding - "
-               "sampled each run); arc geometry is an oracle (hook verif_arcs); round trip is a validated, not a proved, clause.",
+               "sampled each run); arc geometry is an oracle (hook verif_arcs); the round-trip theorem excludes NaN / infinities (they print as words) "
+               "through its hypothesis.",
     technique="Coq proof (fuel/measure, protocol and buffer-independence invariants over the parser loop) + token-exhaustive correspondence",
     coq_targets=["theories/Props/C17.vo", "theories/Run/C17.vo"],
     props_file="theories/Props/C17.v",
@@ -393,7 +411,8 @@ PROPS["C17"] = dict(
          "newline x | superscript-2} with attribute count and stop character rotating; minimised past failures; grammar-"
          "generated well-formed data (all commands, separators, number shapes) half of it mutated (insert/delete/replace incl. "
          "non-ASCII numerics/whitespace), sometimes parsed with a different attribute count; round trip on 800 (quick) random "
-         "stored paths and 20000 random f32 texts; non-trivial = builder was called or an error was returned",
+         "stored paths and 20000 random f32 texts; 320 (quick) printed paths through the parser model and the printer model; "
+         "non-trivial = builder was called or an error was returned",
     exhaustive_note="all token sequences up to the stated length over the 23-token alphabet",
     trusted_base=["Model/Parser.v follows parser.rs statement by statement; hook PathParser.verif_arcs supplies arc geometry"],
     assumptions=["parser options and output builder agree on num_attributes (documented precondition)",
@@ -458,24 +477,32 @@ PROPS["C19"] = dict(
 
 PROPS["C09"] = dict(
     level="translation_validation",
-    level_text="Two parts. (1) PROVED (Props/C09.v) for ANY numeric oracle (step count, parameter function, number of "
+    level_text="Three parts. (1) PROVED (Props/C09.v) for ANY numeric oracle (step count, parameter function, number of "
                "sub-quadratics) and any arithmetic: the control structure of the quadratic callback, the quadratic point / "
                "parameter iterators, the cubic callback and the cubic point iterator yields a chain that starts exactly at "
                "the curve's start with parameter 0, is connected piece to piece, has contiguous parameter ranges and ends "
                "exactly at the curve's end with parameter exactly 1; iterators emit exactly the callback's end points. The "
                "control-structure model is tied to the code bit-exactly: the parameter ranges handed to the callbacks are "
-               "recomputed in Coq from the recorded oracles (f32 and f64). (2) VALIDATED per run: every interface (callback, "
+               "recomputed in Coq from the recorded oracles (f32 and f64). (2) DECIDED per run by a VERIFIED checker "
+               "(Checker/CurveDev.v; theorems C09_quad/cubic_deviation_sound: an empty report means EVERY point of the curve, "
+               "t over all rationals of [0,1], is within the tolerance of the polyline; C09_*_deviation_witness: a reported "
+               "witness is a genuine violation; C09_*_vertices_sound): the quadratic and cubic flattenings the sampled check "
+               "accepted (up to 480 per quick run, 40 segments each) are re-decided exactly - convex-hull property + adaptive "
+               "halving over exact rationals; ranges left undecided when the fuel runs out are counted, never alarms. "
+               "(3) VALIDATED per run: every interface (callback, "
                "with parameters, iterators, path iterator adapter, builder adapter, arcs) on every generated curve is "
                "checked for connectivity, exact end points, strictly increasing parameters and for the two-sided distance "
                "bound by dense sampling; deviations beyond the tolerance are reported unless they fall in the documented "
                "known-finding classes K2, K6, K10.",
-    level_note="The distance bound (within tolerance e) is NOT a theorem: Levien's step count is an approximation without a "
-               "proved bound, and the code violates the bound on degenerate curves (known findings). Dense sampling (512 "
-               "samples) is the oracle for the deviation.",
-    technique="Coq proof of the flattening control structure for all oracles + bit-exact correspondence; sampled deviation validation",
+    level_note="That lyon's step count always meets the tolerance is NOT a theorem: Levien's step count is an approximation "
+               "without a proved bound, and the code violates the bound on degenerate curves (known findings). What is proved "
+               "is the checker that decides each produced flattening; arcs (trigonometric) and the flattenings beyond the "
+               "per-run budget are judged by dense sampling (512 samples) only.",
+    technique="Coq proof of the flattening control structure for all oracles + bit-exact correspondence; verified curve-deviation checker (translation validation of each flattening) + sampled deviation validation",
     coq_targets=["theories/Props/C09.vo", "theories/Run/C09.vo"],
     props_file="theories/Props/C09.v",
     props_module="Props.C09",
+    shard_kinds={"c09dev_cases": "curvedev"},
     harness=[dict(sub="c09", profile="debug"), dict(sub="c09", profile="release")],
     rule="per scalar type (f32, f64): quadratics and cubics with lattice or random control points, tolerances "
          "{10, 1, 0.25, 0.1, 0.01, 0.001}, deliberate degeneracies (start == end, coincident / collinear / overshooting "
@@ -580,16 +607,20 @@ PROPS["C03"] = dict(
                "add_rounded_rectangle / add_rectangle) are filled through every entry point, both fill rules, tolerances "
                "1 .. 0.02. The reference outline is NOT lyon's flattening: every curve is sampled uniformly (200 points; "
                "12 for the Coq-evaluated subset, band widened by the proved chord-deviation bound of the sampling - C10's "
-               "second-derivative bound), circles / ellipses by 2880-gons. A point farther than tolerance (+1/64 +sampling "
+               "second-derivative bound; for the Coq-evaluated subset that bound is not trusted: the VERIFIED "
+               "curve-deviation checker of C09 decides that EVERY point of every curve is within the claimed deviation of "
+               "its sampled polyline, and that lyon's sample() at the sampling parameters is the rational model's point), "
+               "circles / ellipses by 2880-gons. A point farther than tolerance (+1/64 +sampling "
                "error) from the exact boundary must be covered iff it is inside; overlaps between triangles are rejected "
                "(crack / overlap along a shared curved edge).",
     level_note="Passing from the sampled polygon to the true curve relies on the chord-deviation bound and on homotopy "
                "invariance of the winding number (not machine-checked): hence the 1/64 widening. Violations inherited from "
                "flattening (K2, K6, K10) are known findings.",
     technique="Coq-verified region comparator + independent sampling against an exact (non-lyon) reference outline",
-    coq_targets=["theories/Props/C01.vo", "theories/Run/C01.vo"],
+    coq_targets=["theories/Props/C01.vo", "theories/Run/C01.vo", "theories/Props/C09.vo", "theories/Run/C09.vo"],
     props_file="theories/Props/C01.v",
     props_module="Props.C01",
+    shard_kinds={"c03dev_cases": "curvedev"},
     harness=[dict(sub="c03", profile="debug")],
     rule="random curved paths (1..2 closed sub-paths of up to 4 line / quadratic / cubic segments on a 14x14 lattice), every "
          "fourth case two sub-paths sharing a cubic edge in opposite directions; shapes: circles (radius 0.5..100 and 425), "
